@@ -314,7 +314,8 @@ def triage(run, failed, known, mods):
                "source_sha256": ex.src_sha, "replayed": False}
         model = None
         try:
-            model = solve.get_model(o, list(ex.strlits.values()), ex.param_svs)
+            if not os.environ.get("PYVC_NO_MODEL"):      # development switch: skip the counter-model search
+                model = solve.get_model(o, list(ex.strlits.values()), ex.param_svs)
         except Exception as e:
             rec["model_error"] = repr(e)
         confirmed = False
